@@ -115,7 +115,7 @@ func longTrie(in []int64) *algz.Trie {
 		t.Insert(p)
 	}
 	t.BuildFailureLinks()
-	if len(longTries) > 64 { // shrinking visits many shapes: do not keep them all
+	if len(longTries) > 24 { // shrinking visits many shapes: do not keep them all
 		longTries = map[longKey]*algz.Trie{}
 	}
 	longTries[key] = t
